@@ -15,6 +15,19 @@ CACHE = os.path.join(VERIF, ".cache")
 TARGET = os.path.join(VERIF, ".target")
 DRIVER = os.path.join(VERIF, "driver", "target", "release", "sfa")
 HARNESS = os.path.join(VERIF, "harness")
+if REPO != "/repo":
+    # analysing a scratch copy (seeded-change experiments): private harness + target so that /repo's runs are undisturbed
+    _tag = hashlib.sha1(REPO.encode()).hexdigest()[:8]
+    _alt = os.path.join(VERIF, ".harness-" + _tag)
+    os.makedirs(os.path.join(_alt, "sfcorpus", "src"), exist_ok=True)
+    for rel in ("Cargo.toml", os.path.join("sfcorpus", "Cargo.toml")):
+        with open(os.path.join(HARNESS, rel)) as _f:
+            _t = _f.read().replace('"/repo/', '"' + REPO.rstrip("/") + "/")
+        with open(os.path.join(_alt, rel), "w") as _f:
+            _f.write(_t)
+    HARNESS = _alt
+    TARGET = os.path.join(VERIF, ".target-alt-" + _tag)
+    CACHE = os.path.join(VERIF, ".cache", "alt-" + _tag)
 
 SRC_DIRS = ["savefile", "savefile-derive", "savefile-abi"]
 
